@@ -1,3 +1,4 @@
+mod c09;
 mod c13;
 mod c17;
 mod c18;
@@ -17,6 +18,7 @@ use driver::*;
 
 fn sim_for(id: &str) -> Box<dyn Simulation> {
   match id {
+    "C09" => Box::new(c09::C09Sim),
     "C10" => Box::new(edit_world::EditSim),
     "C13" => Box::new(c13::C13Sim),
     "C17" => Box::new(c17::C17Sim),
